@@ -44,6 +44,15 @@ async<void> driver(Fut *a, Fut *b, bool *done) {
     *done = true;
 }
 
+// op 4: a running coroutine calls coro_queue::resume(h) directly for a suspended coroutine h (logs 50 when resumed),
+// after it queued nq waiters through a discarded suspend point; it logs 0 right after the call
+async<void> resumer(Fut *a, std::coroutine_handle<> h) {
+    a->p(1);                      // discarded: waiters queued (coroutine mode)
+    coro_queue::resume(h);
+    g_log->push_back(0);
+    co_return;
+}
+
 void run_op(const std::vector<long> &op) {
     auto rej = [] { vh::print_obs({1}); };
     std::vector<long> log;
@@ -99,6 +108,19 @@ void run_op(const std::vector<long> &op) {
         std::vector<long> o = {0, coro_queue::is_active() ? 1 : 0, qlen()};
         for (long x : log) o.push_back(x);
         vh::print_obs(o);
+        return;
+    }
+    if (op.size() == 2 && op[0] == 4) {
+        long nq = op[1];
+        if (nq < 0 || nq > 8) return rej();
+        Fut a;
+        subscribe(a, 1, nq);
+        vh::tco t = vh::logging_coro(50, &log);
+        resumer(&a, t.h).detach();
+        std::vector<long> o = {0, coro_queue::is_active() ? 1 : 0, qlen()};
+        for (long x : log) o.push_back(x);
+        vh::print_obs(o);
+        t.h.destroy();
         return;
     }
     rej();
